@@ -25,12 +25,12 @@ func vbC04Strings() []string {
 }
 
 type vbC04Res struct {
-	Cases      int64    `json:"cases"`
-	Checks     int64    `json:"checks"`
-	Nontrivial int64    `json:"nontrivial"`
+	Cases      int64       `json:"cases"`
+	Checks     int64       `json:"checks"`
+	Nontrivial int64       `json:"nontrivial"`
 	Findings   []vbFinding `json:"findings"`
-	Samples    []string `json:"samples"`
-	PyCases    int64    `json:"py_cases_written"`
+	Samples    []string    `json:"samples"`
+	PyCases    int64       `json:"py_cases_written"`
 	seen       map[string]bool
 }
 
